@@ -321,7 +321,8 @@ def corr_factory(rng, k, corr, res):
 # ------------------------------------------------------------------ the property's oracle on the real models
 def gen_gamma_sample(nrng, n):
     shape = float(nrng.choice([0.4, 0.7, 1.0, 2.0, 5.0]))
-    scale = float(nrng.choice([0.05, 0.5, 2.0, 10.0, 40.0]))
+    # mm/day scales and precipitation fluxes in kg m-2 s-1 (scale 4e-5 ~ 2 mm/day; wet values below 1e-8 occur)
+    scale = float(nrng.choice([0.05, 0.5, 2.0, 10.0, 40.0, 4e-5, 1e-7, 1e-9]))
     dry = float(nrng.uniform(0.05, 0.95))
     wet = nrng.gamma(shape, scale, size=n)
     z = nrng.uniform(size=n) < dry
@@ -342,6 +343,22 @@ def oracle(nrng, problems, stats, k):
     def bad(desc, sig, **extra):
         problems.append((desc, {**info, **extra}, sig))
 
+    data32 = data.astype(np.float32)  # the usual storage dtype of model output; cdf / ppf must still be computed in float64
+    d32 = data32.astype(np.float64)
+    nz32 = int((data32 == 0).sum())
+
+    def f32_checks(cdf32, back32, F32, sig, name):
+        s32 = {**sig, "input_dtype": "float32"}
+        if cdf32.dtype != np.float64 or back32.dtype != np.float64:
+            bad(f"{name}: cdf / ppf of float32 data have dtype {cdf32.dtype} / {back32.dtype}, not float64", {**s32, "law": "result_dtype"})
+        b = back32.astype(float)
+        if np.any(b[d32 == 0] != 0):
+            bad(f"{name} (float32 data): a dry value does not stay dry", {**s32, "law": "dry"})
+        m = d32 > 0
+        if not rt_ok(d32[m], b[m], F32[m]):
+            k_ = np.where(m)[0][np.argmax(np.where((F32[m] >= 1e-4) & (F32[m] <= 1 - 1e-4), np.abs(b[m] - d32[m]) / d32[m], 0))]
+            bad(f"{name} (float32 data): ppf(cdf(x)) != x for a wet value: x = {d32[k_]!r} comes back as {b[k_]!r}", {**s32, "law": "wet_roundtrip"})
+
     def rt_ok(x, back, F):
         """round trip demanded where the float cdf has room: 1e-4 <= F <= 1 - 1e-4 (float guard, see assumptions)"""
         m = (F >= 1e-4) & (F <= 1 - 1e-4)
@@ -360,8 +377,14 @@ def oracle(nrng, problems, stats, k):
             cdf = np.asarray(quiet(model.cdf, data, *fit), dtype=float)
             back = np.asarray(quiet(model.ppf, cdf, *fit), dtype=float)
             cw = np.asarray(quiet(model.cdf, wet, *fit), dtype=float)
+            p0_32 = quiet(model.fit, data32)[0]
+            cdf32 = np.asarray(quiet(model.cdf, data32, *fit))
+            back32 = np.asarray(quiet(model.ppf, cdf32, *fit))
         if abs(p0 - nz / n) > 1e-15:
-            bad(f"hurdle fit: p0 = {p0}, observed fraction of zeros {nz}/{n}", {**sig, "law": "p0"})
+            bad(f"hurdle fit: p0 = {p0}, observed fraction of zeros {nz}/{n} ({int(((data > 0) & (data < 1e-8)).sum())} wet values are below 1e-8)", {**sig, "law": "p0"})
+        if abs(p0_32 - nz32 / n) > 1e-15:
+            bad(f"hurdle fit (float32 data): p0 = {p0_32}, observed fraction of zeros {nz32}/{n}", {**sig, "law": "p0", "input_dtype": "float32"})
+        f32_checks(cdf32, back32, scipy.stats.gamma.cdf(d32, *fit[1]), sig, "hurdle")
         if not (np.all(cdf >= 0) and np.all(cdf <= 1)):
             bad("hurdle cdf outside [0,1]", {**sig, "law": "cdf_range"})
         if np.any(back[data == 0] != 0):
@@ -411,14 +434,19 @@ def oracle(nrng, problems, stats, k):
         bad("ignore-zeros: ppf(cdf(x)) != x for a wet value", {**sig, "law": "wet_roundtrip"})
     if np.any(np.diff(np.asarray(quiet(model.cdf, wet, *fit), dtype=float)) < 0):
         bad("ignore-zeros cdf decreasing over wet values", {**sig, "law": "cdf_monotone"})
+    cdf32 = np.asarray(quiet(model.cdf, data32, *fit))
+    back32 = np.asarray(quiet(model.ppf, cdf32, *fit))
+    if np.any(cdf32[d32 == 0] != -np.inf):
+        bad("ignore-zeros (float32 data): cdf(0) is not -inf", {**sig, "law": "cdf_zero", "input_dtype": "float32"})
+    f32_checks(cdf32, back32, scipy.stats.gamma.cdf(d32, *fit), sig, "ignore-zeros")
     stats["ignore_zeros_checks"] += 1
     # ---- censored gamma (parameters: the generating ones; the optimiser is outside the model — one real fit in a while)
-    thr = float(nrng.choice([0.1, 0.05, 0.5]))
+    thr = float(nrng.choice([0.1, 0.05, 0.5])) * (1.0 if scale >= 0.05 else scale)  # threshold in the data's units
     for censor in (True, False):
         model = M.gen_PrecipitationGammaLeftCensoredModel(censoring_threshold=thr, censor_in_ppf=censor)
         sig = {"model": "censored", "censor_in_ppf": censor}
         fit = (shape, 0, scale)
-        if k % 25 == 0 and censor and int((data > thr).sum()) >= 10:  # guard: enough non-censored values for the likelihood fit
+        if k % 25 == 0 and censor and scale >= 0.05 and int((data > thr).sum()) >= 10:  # guard: enough non-censored values for the likelihood fit
             fit = quiet(model.fit, data)
             stats["censored_real_fits"] += 1
             if not (np.isfinite(fit[0]) and fit[0] > 0 and fit[2] > 0 and fit[1] == 0):
@@ -447,6 +475,16 @@ def oracle(nrng, problems, stats, k):
             bad(f"censored: value at the threshold comes back as {at}", {**sig, "law": "at_threshold"})
         elif censor and at == 0:
             stats["ties_accepted_at_threshold"] += 1
+        np.random.seed(k + 1)
+        cdf32 = np.asarray(quiet(model.cdf, data32, *fit))
+        back32 = np.asarray(quiet(model.ppf, cdf32, *fit))
+        if cdf32.dtype != np.float64 or back32.dtype != np.float64:
+            bad(f"censored: cdf / ppf of float32 data have dtype {cdf32.dtype} / {back32.dtype}, not float64", {**sig, "law": "result_dtype", "input_dtype": "float32"})
+        a32 = d32 > thr * (1 + 1e-6)
+        if not rt_ok(d32[a32], back32.astype(float)[a32], cdf32.astype(float)[a32]):
+            bad("censored (float32 data): ppf(cdf(x)) != x for a value above the threshold", {**sig, "law": "wet_roundtrip", "input_dtype": "float32"})
+        if censor and np.any(back32[d32 < thr * (1 - 1e-6)] != 0):
+            bad("censored (float32 data, censor_in_ppf): a value below the threshold does not come back as 0", {**sig, "law": "dry", "input_dtype": "float32"})
         cwet = np.asarray(scipy.stats.gamma.cdf(wet[wet >= thr], *fit))
         if np.any(np.diff(cwet) < 0):
             bad("censored cdf decreasing over wet values", {**sig, "law": "cdf_monotone"})
@@ -477,8 +515,9 @@ def oracle(nrng, problems, stats, k):
 # ------------------------------------------------------------------ the check
 def run(tier, res, force_search=False):
     rng = random.Random(C.seed() * 15485863 + 17)
-    res.rule = ("correspondence cases = (zero-inflated dyadic sample of size 2..14 with a dry fraction in (0,1), model type, options, family loc/scale, threshold) from one PRNG "
-                "(VERIF_SEED); oracle cases = zero-inflated gamma samples (shape 0.4..5, scale 0.05..40, dry fraction 0.05..0.95, n 20..120); "
+    res.rule = ("correspondence cases = (zero-inflated dyadic sample of size 2..14 with a dry fraction in (0,1), in mm/day or flux units (x 2^-20, 2^-34), float64 or float32, "
+                "model type, options, family loc/scale, threshold) from one PRNG (VERIF_SEED); oracle cases = zero-inflated gamma samples (shape 0.4..5, scale 1e-9..40 "
+                "(mm/day and kg m-2 s-1), dry fraction 0.05..0.95, n 20..120), each also as float32; "
                 "distinct = distinct (model, n, #dry, options) classes; every case is non-trivial (both dry and wet values)")
     res.trusted = C.BASE_TRUSTED + [
         "the amounts distribution is a parameter: theorems hold for every family satisfying Lemmas.Precip.AmountLaws (proved for the rational test double, assumed for scipy's gamma and other rv_continuous families)",
